@@ -61,11 +61,44 @@ Theorem acknowledged_survives_failures :
   forall s_ack s d,
   PInv s_ack -> ph s_ack = Idle -> reach s_ack s -> crash_image (dv s) d ->
   exists s_i seen, reach s_ack s_i /\ ph s_i = Idle /\ recover d = Some seen /\
-    forall k, contents seen k = contents (cells (durable (dv s_i))) k.
+    forall k, contents seen k = contents (cells (durable (dv s_i))) k
+
+(* the scrub of a failed batch (journal ACTIVE(exts) again, markers, clear): from the failure to its
+   end every crash image, and the device as it stands after each fsync, recovers the cells the
+   batch found -- the contents before the batch *).
 Proof. exact ack_durable. Qed.
 Check acknowledged_survives_failures :
   forall s_ack s d,
   PInv s_ack -> ph s_ack = Idle -> reach s_ack s -> crash_image (dv s) d ->
   exists s_i seen, reach s_ack s_i /\ ph s_i = Idle /\ recover d = Some seen /\
-    forall k, contents seen k = contents (cells (durable (dv s_i))) k.
+    forall k, contents seen k = contents (cells (durable (dv s_i))) k
+
+(* the scrub of a failed batch (journal ACTIVE(exts) again, markers, clear): from the failure to its
+   end every crash image, and the device as it stands after each fsync, recovers the cells the
+   batch found -- the contents before the batch *).
 Print Assumptions acknowledged_survives_failures.
+
+Theorem scrub_of_a_failed_batch_is_restartable :
+  forall d c g exts ws,
+  replay_start d c g exts -> (forall i cl, In (i, cl) ws -> In i exts) ->
+  let seen := wipe exts (cells d) in
+  let d1 := scrub_synced d c g exts ws in
+  (forall d', crash_image (scrub_stage0 d ws) d' -> recover d' = Some seen) /\
+  (forall d', crash_image (scrub_stage1 d c g exts ws) d' -> recover d' = Some seen) /\
+  recover d1 = Some seen /\
+  (forall d', crash_image (replay_stage1 d1 exts) d' -> recover d' = Some seen) /\
+  (forall d', crash_image (replay_stage2 d1 (negb c) (g + 1) exts) d' -> recover d' = Some seen) /\
+  recover (replay_done d1 (negb c) (g + 1) exts) = Some seen.
+Proof. exact scrub_preserves_contents. Qed.
+Check scrub_of_a_failed_batch_is_restartable :
+  forall d c g exts ws,
+  replay_start d c g exts -> (forall i cl, In (i, cl) ws -> In i exts) ->
+  let seen := wipe exts (cells d) in
+  let d1 := scrub_synced d c g exts ws in
+  (forall d', crash_image (scrub_stage0 d ws) d' -> recover d' = Some seen) /\
+  (forall d', crash_image (scrub_stage1 d c g exts ws) d' -> recover d' = Some seen) /\
+  recover d1 = Some seen /\
+  (forall d', crash_image (replay_stage1 d1 exts) d' -> recover d' = Some seen) /\
+  (forall d', crash_image (replay_stage2 d1 (negb c) (g + 1) exts) d' -> recover d' = Some seen) /\
+  recover (replay_done d1 (negb c) (g + 1) exts) = Some seen.
+Print Assumptions scrub_of_a_failed_batch_is_restartable.
